@@ -559,6 +559,24 @@ func main() {
 				attempts = 20
 			}
 			confirmed := false
+			if report := raceReport(r.log); report != "" {
+				// A report of Go's race detector is itself the proof (it has no false positives):
+				// two unsynchronised conflicting accesses did occur. It is attributed to the
+				// library only if a library frame takes part; the scenario file is the replay
+				// (re-running it may need many attempts to hit the same window).
+				if strings.Contains(report, "github.com/AsaiYusuke/jsonpath.") {
+					confirmed = true
+					attempts = 0
+					var obj map[string]interface{}
+					if json.Unmarshal(content, &obj) == nil {
+						obj["violation"] = "data race reported by the race detector"
+						obj["race_report"] = report
+						if nb, err := json.MarshalIndent(obj, "", " "); err == nil {
+							_ = os.WriteFile(path, nb, 0o644)
+						}
+					}
+				}
+			}
 			for a := 0; a < attempts && !confirmed; a++ {
 				bad, inc, _ := replayFile(b, path, 2*time.Minute)
 				if inc {
@@ -655,6 +673,22 @@ func main() {
 func jobChecks(jobs interface{}, r shardResult) int {
 	// the requested count is the same for every shard of a check
 	return r.check.requested
+}
+
+// raceReport extracts the first race detector report from a log.
+func raceReport(log string) string {
+	i := strings.Index(log, "WARNING: DATA RACE")
+	if i < 0 {
+		return ""
+	}
+	rest := log[i:]
+	if j := strings.Index(rest[18:], "=================="); j >= 0 {
+		rest = rest[:18+j]
+	}
+	if len(rest) > 6000 {
+		rest = rest[:6000]
+	}
+	return rest
 }
 
 func crashed(log string) bool {
